@@ -23,4 +23,6 @@ NextWake ==
           \/ Poll(s, "Poll") \/ NextNow(s) \/ Reset(s)
           \/ \E n \in NewSub : CloneSub(s, n)
 SpecWake == Init /\ [][NextWake]_vars
+(* the same tree below a first subscriber (every interesting path starts with subscribe): one level deeper at the same cost *)
+SpecWakeSub == Init /\ [][IF Len(hist) = 1 THEN \E n \in NewSub : Subscribe(1, n) ELSE NextWake]_vars
 =============================================================================
